@@ -28,8 +28,48 @@ type c14Params struct {
 	Hook    int
 }
 
+// c14MappedID: a router id given in IPv4-mapped IPv6 form is either refused by
+// NewServer or reaches the wire as that IPv4 address.
+func c14MappedID(t *testing.T, id uint32, dir string, seed uint64) rt.Result {
+	v4 := netip.AddrFrom4([4]byte{byte(id >> 24), byte(id >> 16), byte(id >> 8), byte(id)})
+	mapped := netip.AddrFrom16(v4.As16())
+	out := hz.Run(t, hz.Opts{Seed: seed, HookMode: hz.HookOff, LocalID: mapped, IDMayBeRejected: true}, func(w *hz.World) {
+		ps := hz.StdPeer("10.0.1.1")
+		ps.Passive = dir == "in"
+		w.DialPolicy = func(hz.DialReq) (hz.DialAction, time.Duration) { return hz.DialAccept, 0 }
+		w.MustAddPeer(ps)
+		var rc *hz.RConn
+		if dir == "in" {
+			rc = w.Connect(ps.Addr)
+		} else if rc = w.WaitOut(1, time.Minute); rc == nil {
+			w.Violate("no outbound connection")
+			return
+		}
+		w.Settle()
+		ms := rc.Msgs()
+		if len(ms) != 1 || ms[0].Type != wire.TypeOpen {
+			w.Violate("router id %v accepted by NewServer but no OPEN on the wire: %s", mapped, typesOf(ms))
+			return
+		}
+		if ms[0].Open.ID != id {
+			w.Violate("router id %v accepted by NewServer, but the OPEN carries BGP Identifier %08x instead of %08x", mapped, ms[0].Open.ID, id)
+		}
+	})
+	res := worldResult(out, true, fmt.Sprintf("|mapped %v", out.IDRejected), map[string]int{"mapped_ids": 1})
+	if out.IDRejected {
+		res.Events["mapped_ids_refused_by_NewServer"] = 1
+	}
+	return res
+}
+
 func TestC14(t *testing.T) {
 	c := rt.Get()
+	for i := 0; i < c.N(8, 64); i++ {
+		id := []uint32{0xc0000201, 0x0a000001, 0x01020304, 0xfffffffe}[i%4] + uint32(i/4)
+		dir := allDirs[i%2]
+		seed := uint64(i) + c.Seed
+		runCase(t, "mapped-id", i, map[string]any{"router_id": fmt.Sprintf("::ffff:%08x", id), "dir": dir}, func(t *testing.T) rt.Result { return c14MappedID(t, id, dir, seed) })
+	}
 	n := c.N(12000, 400000)
 	asB := []uint32{1, 23456, 65535, 65536, 4200000000, 4294967295}
 	for i := 0; i < n; i++ {
